@@ -94,8 +94,20 @@ def judge_space(kind, shape, types, colours, repname, with_gym=True):
 def _work(job):
     n = spaces = 0
     fails = []
+    kept = []
     for kind, shape, types, colours in job:
         for repname in P.REPS:
+            if len(kept) < 6 and not (kind == 'state' and 'Box' in types):
+                # keep a representation, the spaces it advertised when created, and two members: re-checked at the end,
+                # after representations of OTHER spaces have been created and used in this process
+                objs = P.objects_of(types, colours)
+                if kind == 'state':
+                    rep0 = P.make_state_representation(repname, P.state_space(shape, types, colours))
+                    mem = [mkstate(m) for m in list(P.state_members(shape, objs))[-3:]]
+                else:
+                    rep0 = P.make_observation_representation(repname, P.obs_space(shape, types, colours))
+                    mem = [mkobs(m) for m in list(P.obs_members(shape, objs))[:3]]
+                kept.append((kind, shape, types, colours, repname, rep0, dict(rep0.space), outer_space_to_gym_space(rep0.space), mem))
             k, msg, m = judge_space(kind, shape, types, colours, repname)
             n += k
             spaces += 1
@@ -103,7 +115,49 @@ def _work(job):
                 fails.append({'kind': 'space', 'skind': kind, 'shape': shape, 'types': types, 'colours': colours, 'rep': repname,
                               'member': m, 'message': f'{kind} space {shape} types {list(types)} colours {list(colours)} [{repname}]: {msg}',
                               'sig': {'rep': repname, 'kind': kind}, 'simplicity': len(types) * 10 + len(colours)})
+    for kind, shape, types, colours, repname, rep0, space0, gym0, mem in kept:
+        for mo in mem:
+            n += 1
+            arrays = rep0.convert(mo)
+            bad = [k for k in arrays if not space0[k].contains(arrays[k])] or ([] if gym0.contains(arrays) else ['<gym space>'])
+            if bad and len(fails) < 3:
+                fails.append({'kind': 'space_order', 'job': [list(map(list, (j[1], j[2], j[3]))) + [j[0]] for j in job][:0],
+                              'message': f'{kind} space {shape} types {list(types)} colours {list(colours)} [{repname}]: after representations '
+                              f'of other spaces were created in the same process, entries {bad} leave the space advertised at creation',
+                              'skind': kind, 'shape': shape, 'types': types, 'colours': colours, 'rep': repname, 'jobspec': job,
+                              'sig': {'rep': repname, 'kind': kind, 'part': 'advertised_then_others'}, 'simplicity': 0})
     return n, spaces, fails
+
+
+def judge_gym_switching(name, seed):
+    """at the gym layer, after every step and after every representation switch (all ordered pairs), the current
+    observation / state lie in the currently advertised spaces"""
+    import gym_gridverse.gym as GG
+    from gym_gridverse.outer_env import OuterEnv
+
+    inner = configs.build(dict(configs.all_configs())[name])
+    inner.set_seed(seed)
+    srep = P.make_state_representation('default', inner.state_space) if inner.state_space.can_be_represented else None
+    ge = GG.GymEnvironment(OuterEnv(inner, state_representation=srep,
+                                    observation_representation=P.make_observation_representation('default', inner.observation_space)))
+    n = 0
+    ge.reset()
+    order = ['compact', 'default', 'no-overlap', 'compact', 'no-overlap', 'default', 'compact']
+    for i, repname in enumerate(order):
+        for which in ('observation', 'state'):
+            if which == 'state' and srep is None:
+                continue
+            n += 1
+            cur_before = getattr(ge, which)  # read, then switch, then read again
+            getattr(ge, f'set_{which}_representation')(repname)
+            cur = getattr(ge, which)
+            space = ge.observation_space if which == 'observation' else ge.state_space
+            if not space.contains(cur):
+                return n, f'{name}: after switching the {which} representation to {repname} the current {which} is outside the advertised space'
+        out = ge.step(i % ge.action_space.n)
+        if not ge.observation_space.contains(out[0]):
+            return n, f'{name}: step output outside the advertised observation space under {repname}'
+    return n, None
 
 
 # ---------------------------------------------------------------- shipped configurations
@@ -133,6 +187,14 @@ def make_hooks(env, name):
 
 
 def replay(case):
+    if case['kind'] == 'space_order':
+        job = [(j[0], tuple(j[1]), tuple(j[2]), tuple(j[3])) for j in case['jobspec']]
+        for f in _work(job)[2]:
+            if f['kind'] == 'space_order':
+                return f['message']
+        return None
+    if case['kind'] == 'gym_switch':
+        return judge_gym_switching(case['config'], case['seed'])[1]
     if case['kind'] == 'space':
         return judge_space(case['skind'], tuple(case['shape']), tuple(case['types']), tuple(case['colours']), case['rep'])[1]
     if case['kind'] == 'reach':
@@ -171,15 +233,22 @@ def spaces(tier):
 def run(rep, tier, seed):
     sp = spaces(tier)
     sp.sort(key=lambda s: -len(s[2]) * s[1][0] * s[1][1])
-    jobs = [sp[i::256] for i in range(256)]
+    jobs = [sorted(sp[i::256], key=lambda x: len(x[2])) for i in range(256)]
     n = ns = 0
     fails = []
-    for k, s, fl in pmap(_work, jobs):
+    for k, s, fl in pmap(_work, jobs, fresh=True):
         n += k
         ns += s
         fails.extend(fl)
     fails.sort(key=lambda f: f['simplicity'])
     dyn.report_fails(rep, fails, replay)
+    gn = 0
+    for name in (configs.SMALL + ['keydoor.7x7', 'memory_four_rooms.7x7'] if tier == 'quick' else [c for c, _ in configs.all_configs()]):
+        k, m = judge_gym_switching(name, seed + 3)
+        gn += k
+        if m:
+            rep.violation({'kind': 'gym_switch', 'config': name, 'seed': seed + 3, 'sig': {'part': 'gym_switching'}}, m)
+    rep.part('gym_layer_switching', reads=gn)
     rep.part('spaces', spaces=len(sp), space_x_representation=ns, conversions=n)
     rep.bounds = {'type_subsets': 'sizes 1..3 + 5 shipped sets + all 9' if tier == 'quick' else 'all 511 non-empty subsets',
                   'colour_subsets': 5 if tier == 'quick' else 16, 'grid_shapes': GRID_SHAPES, 'view_shapes': VIEW_SHAPES,
